@@ -257,7 +257,8 @@ def mutate(draw, V):
 def _case(draw):
     form = draw(st.sampled_from(["param"] * 8 + ["action_instance", "flow_instance"]))
     if form != "param":
-        return {"form": form, "which": draw(st.integers(0, 2)), "target": draw(st.integers(0, 2)), "n": 3}
+        target = draw(st.sampled_from([0, 1, 2, "none", "missing", "unknown"]))
+        return {"form": form, "which": draw(st.integers(0, 2)), "target": target, "n": 3, "with_args": draw(st.booleans()), "event": draw(st.sampled_from(["Finished", "Started"]))}
     nparams = draw(st.integers(1, 2))
     pats, pay, kinds = {}, {}, []
     for name in ["p", "q"][:nparams]:
@@ -313,8 +314,12 @@ def enumerate_cases(tier):
             yield {"form": "param", "pattern": {"p": P}, "payload": {"p": V}, "extra": {}, "mut": ["table"]}
     for form in ("action_instance", "flow_instance"):
         for which in range(3):
-            for target in range(3):
-                yield {"form": form, "which": which, "target": target, "n": 3}
+            for target in [0, 1, 2, "none", "missing", "unknown"]:
+                for with_args in (True, False):
+                    for event in ("Finished", "Started"):
+                        if form == "flow_instance" and (not isinstance(target, int) or not with_args or event == "Started"):
+                            continue
+                        yield {"form": form, "which": which, "target": target, "n": 3, "with_args": with_args, "event": event}
 
 
 # ---------------------------------------------------------------------------------------------
@@ -323,15 +328,26 @@ def enumerate_cases(tier):
 def _instance_case(case):
     n, which, target = case["n"], case["which"], case["target"]
     if case["form"] == "action_instance":
+        with_args = case.get("with_args", True)
+        evname = case.get("event", "Finished")
+        action = 'UtteranceBotAction(script="same")' if with_args else "PostureBotAction()"
+        typ = "UtteranceBotAction" if with_args else "PostureBotAction"
         lines = ["flow main"]
         for i in range(n):
-            lines.append(f'  start UtteranceBotAction(script="same") as $a{i}')
-        lines += [f"  match $a{which}.Finished()", "  send Hit()", "  match Never()"]
+            lines.append(f"  start {action} as $a{i}")
+        lines += [f"  match $a{which}.{evname}()", "  send Hit()", "  match Never()"]
         state = smh.init("\n".join(lines) + "\n")
-        starts = [e for e in state.outgoing_events if e["type"] == "StartUtteranceBotAction"]
+        starts = [e for e in state.outgoing_events if e["type"] == "Start" + typ]
         if len(starts) != n:
-            raise Violation("setup", f"expected {n} StartUtteranceBotAction events, got {smh.types(state.outgoing_events)}")
-        out = smh.feed(state, smh.ev("UtteranceBotActionFinished", action_uid=starts[target]["action_uid"], is_success=True, final_script="same"))
+            raise Violation("setup", f"expected {n} Start{typ} events, got {smh.types(state.outgoing_events)}")
+        event = smh.ev(typ + evname, is_success=True)
+        if isinstance(target, int):
+            event["action_uid"] = starts[target]["action_uid"]
+        elif target == "none":
+            event["action_uid"] = None  # an event that does not say which action instance it belongs to
+        elif target == "unknown":
+            event["action_uid"] = "00000000-0000-0000-0000-000000000000"
+        out = smh.feed(state, event)
     else:
         lines = ["flow f $i", "  match Go(i=$i)", "", "flow main"]
         for i in range(n):
@@ -343,9 +359,10 @@ def _instance_case(case):
     if hit != (which == target):
         raise Violation(
             "instance-specificity",
-            f"{case['form']}: statement refers to instance {which}, event belongs to instance {target}, Hit emitted={hit}",
+            f"{case['form']} (action with arguments: {case.get('with_args', True)}, {case.get('event', 'Finished')}): statement refers to instance {which}, event belongs to instance {target}, Hit emitted={hit}",
         )
-    return ok(nt=True, labels=[case["form"], "same-instance" if which == target else "other-instance"], view=case)
+    lab = "same-instance" if which == target else "other-instance" if isinstance(target, int) else f"event-uid-{target}"
+    return ok(nt=True, labels=[case["form"], lab], view=case)
 
 
 def prop(case):
